@@ -28,7 +28,8 @@ R03.7 tweak sequence in all 24 bodies (raw and expanded key): in the sse / avx b
       (lib/aesrounds.py).  For every length 16..299 the value stored as output block j depends on T*alpha^j; with a
       trailing partial block the last full position depends on alpha^m when encrypting and alpha^(m-1) when
       decrypting, and the trailing bytes on the other one (ciphertext stealing swaps the last two tweaks for
-      decryption).  Only the last store to each position counts; a value that no tweak symbol reached is not judged.
+      decryption).  The adc that doubles the high half must consume the carry flag of the shl of the low half (no
+      flag-writing instruction in between).  Only the last store to each position counts; a value that no tweak symbol reached is not judged.
 R03.3 every XTS body is reached: each of the 8 dispatchers offers an sse, an avx and a vaes candidate and every
       candidate has the 6-argument signature taken from aes/aes_xts.c (anchor / instance floor).
 Positive control: under len in [16,31] the same analysis does reach accesses through both buffers in every body.
@@ -98,6 +99,9 @@ def worker(lib, objname, extra):
                     out["broken"].append("%s: length skeleton not followed for len = %d (%s)" % (name, L, mch.result.stopped))
                     break
                 v7, k7 = aesrounds.judge_tweaks(mch, L, "_dec_" in name)
+                cv = [x for x in mch.viol if "carry flag" in x[1]]
+                if cv and not v7:
+                    v7 = (cv[0][0], "`%s`: %s" % (cv[0][0].text.strip(), cv[0][1]))
                 n7 += k7
                 if v7 and not bad7:
                     bad7 = (L, v7)
